@@ -436,6 +436,8 @@ def run(ctx):
     if mem_sweep is not None:
         sweep_new, sweep_known = mem_sweep.check(ctx, known, widen=bool(corr or not proved or not model))
         sweep_new += mem_sweep.check_multi(ctx, known)
+        from vlib import mem_failcomp
+        sweep_new += mem_failcomp.check(ctx, known)
 
     new = [o for o in orc if not (o["known"] and o["known"] in known)]
     if (corr or not proved or not model) and not new and not sweep_new and not ctx.thorough:
@@ -478,7 +480,7 @@ def replay(ctx, path):
     for l in open(path):
         if not l.strip() or l.startswith("#") or l.startswith("(process)"):
             continue
-        (sweep if l.startswith(("sweep ", "multi ")) else cont).append(l)
+        (sweep if l.startswith(("sweep ", "multi ", "failcomp ")) else cont).append(l)
     rc = 0
     if cont:
         r, out = core.sh([impl], input="".join(cont))
@@ -496,6 +498,7 @@ def replay(ctx, path):
                 print("#   FAILS%s: %s" % (" (known finding %s)" % known if known else "", text))
                 rc = 1
     if sweep:
-        from vlib import mem_sweep
-        rc = max(rc, mem_sweep.replay(sweep))
+        from vlib import mem_sweep, mem_failcomp
+        rc = max(rc, mem_sweep.replay([l for l in sweep if not l.startswith("failcomp ")]))
+        rc = max(rc, mem_failcomp.replay([l for l in sweep if l.startswith("failcomp ")]))
     return rc
